@@ -521,6 +521,7 @@ impl Drop for CaseGuard {
 /// Registers the case the calling thread is about to run. `violation`: a hang of this case refutes
 /// the property being checked (otherwise the run ends inconclusive, naming the case).
 pub fn guard_case(limit_s: u64, violation: bool, signature: String, summary: String, replay: J) -> CaseGuard {
+    note_case(&summary);
     if cfg!(miri) {
         return CaseGuard(None);
     }
@@ -588,4 +589,116 @@ pub fn start_hang_monitor(ctx: &Ctx) {
             std::process::exit(code);
         }
     });
+}
+
+
+// ----------------------------------------------------------------------- in-flight case journal
+//
+// When engine code takes the whole monitor process down (abort from a non-unwinding panic, heap
+// corruption noticed by the allocator, abort()), the check script reports the death; this journal
+// lets it also say WHICH cases were in flight. Monitors note the case a thread is about to run in a
+// fixed slot; a SIGABRT/SIGILL/SIGBUS/SIGFPE handler writes all slots to stderr with raw write(2)
+// calls (async-signal-safe) and lets the signal take its course.
+
+const NOTE_LEN: usize = 400;
+
+struct NoteSlot {
+    tid: std::sync::atomic::AtomicI32,
+    len: std::sync::atomic::AtomicUsize,
+    buf: std::cell::UnsafeCell<[u8; NOTE_LEN]>,
+}
+unsafe impl Sync for NoteSlot {}
+
+const EMPTY_SLOT: NoteSlot = NoteSlot { tid: std::sync::atomic::AtomicI32::new(0), len: std::sync::atomic::AtomicUsize::new(0), buf: std::cell::UnsafeCell::new([0; NOTE_LEN]) };
+static NOTES: [NoteSlot; 64] = [EMPTY_SLOT; 64];
+static NEXT_NOTE_SLOT: std::sync::atomic::AtomicUsize = std::sync::atomic::AtomicUsize::new(0);
+
+thread_local! {
+    static MY_NOTE_SLOT: std::cell::Cell<usize> = const { std::cell::Cell::new(usize::MAX) };
+}
+
+/// Remember what the calling thread is about to hand to engine code (cheap: one memcpy).
+pub fn note_case(text: &str) {
+    use std::sync::atomic::Ordering::Relaxed;
+    let mut i = MY_NOTE_SLOT.with(|c| c.get());
+    if i == usize::MAX {
+        i = NEXT_NOTE_SLOT.fetch_add(1, Relaxed);
+        MY_NOTE_SLOT.with(|c| c.set(i));
+        if i < NOTES.len() {
+            NOTES[i].tid.store(if cfg!(miri) { 1 } else { own_tid() }, Relaxed);
+        }
+    }
+    if i >= NOTES.len() {
+        return;
+    }
+    let b = text.as_bytes();
+    let n = b.len().min(NOTE_LEN);
+    NOTES[i].len.store(0, Relaxed);
+    unsafe {
+        std::ptr::copy_nonoverlapping(b.as_ptr(), (*NOTES[i].buf.get()).as_mut_ptr(), n);
+    }
+    NOTES[i].len.store(n, Relaxed);
+}
+
+extern "C" {
+    fn signal(signum: i32, handler: usize) -> usize;
+    fn raise(signum: i32) -> i32;
+    fn write(fd: i32, buf: *const u8, n: usize) -> isize;
+}
+
+fn raw_err(b: &[u8]) {
+    unsafe {
+        let _ = write(2, b.as_ptr(), b.len());
+    }
+}
+
+fn raw_num(mut v: i64) {
+    let mut d = [0u8; 20];
+    let mut i = d.len();
+    if v <= 0 {
+        raw_err(b"0");
+        return;
+    }
+    while v > 0 {
+        i -= 1;
+        d[i] = b'0' + (v % 10) as u8;
+        v /= 10;
+    }
+    raw_err(&d[i..]);
+}
+
+extern "C" fn fatal_signal(sig: i32) {
+    use std::sync::atomic::Ordering::Relaxed;
+    raw_err(b"\nFATAL-SIGNAL ");
+    raw_num(sig as i64);
+    raw_err(b" on thread ");
+    raw_num(own_tid() as i64);
+    raw_err(b"\n");
+    for s in NOTES.iter() {
+        let n = s.len.load(Relaxed);
+        if n > 0 {
+            raw_err(b"CASE-IN-FLIGHT tid=");
+            raw_num(s.tid.load(Relaxed) as i64);
+            raw_err(b" ");
+            raw_err(unsafe { &(&(*s.buf.get()))[..n.min(NOTE_LEN)] });
+            raw_err(b"\n");
+        }
+    }
+    unsafe {
+        signal(sig, 0); // SIG_DFL
+        raise(sig);
+    }
+}
+
+pub fn install_fatal_signal_journal() {
+    if cfg!(miri) {
+        return;
+    }
+    // SIGILL 4, SIGABRT 6, SIGBUS 7, SIGFPE 8 (SIGSEGV stays with the Rust runtime: its handler
+    // reports stack overflows on an alternate stack)
+    for sig in [4, 6, 7, 8] {
+        unsafe {
+            signal(sig, fatal_signal as usize);
+        }
+    }
 }
